@@ -109,6 +109,9 @@ impl AsRef<[u32]> for SmtString {
 ///
 /// Construct an SmtString from a UTF8 string x
 ///
+/// Any character of x outside the SMT-LIB alphabet (i.e., larger than 0x2ffff)
+/// is replaced by 0xfffd.
+///
 /// # Example
 /// ```
 /// use aws_smt_strings::smt_strings::*;
@@ -118,7 +121,7 @@ impl AsRef<[u32]> for SmtString {
 /// ```
 impl From<&str> for SmtString {
     fn from(x: &str) -> Self {
-        SmtString::make(x.chars().map(|c| c as u32).collect())
+        SmtString::make(x.chars().map(char_code).collect())
     }
 }
 
@@ -180,9 +183,22 @@ impl From<u32> for SmtString {
 ///
 /// Construct a single-character string from character x.
 ///
+/// Convert x to 0xfffd if it's not a valid SMT-LIB character (i.e., if x is larger than 0x2ffff)
+///
 impl From<char> for SmtString {
     fn from(x: char) -> SmtString {
-        SmtString::make(vec![x as u32])
+        SmtString::make(vec![char_code(x)])
+    }
+}
+
+// Code of a Rust character as an SMT-LIB character: code points above MAX_CHAR
+// are not in the SMT-LIB alphabet and are replaced by REPLACEMENT_CHAR.
+fn char_code(x: char) -> u32 {
+    let x = x as u32;
+    if x <= MAX_CHAR {
+        x
+    } else {
+        REPLACEMENT_CHAR
     }
 }
 
@@ -222,7 +238,7 @@ fn new_automaton() -> ParsingAutomaton {
 impl ParsingAutomaton {
     // add char x to the string so far
     fn push(&mut self, x: char) {
-        self.string_so_far.push(x as u32);
+        self.string_so_far.push(char_code(x));
     }
 
     // add char x to the pending array
